@@ -123,20 +123,26 @@ def quoteByte (plus : Bool) (b : Nat) : Str :=
   else if plus && b == 32 then ['+']
   else ['%', hexUp (b / 16), hexUp (b % 16)]
 
+/-- `quote` (`plus = false`) / `quote_plus` (`plus = true`) with `safe=''` -/
+def quoteWith (plus : Bool) (s : Str) : Str := (utf8Enc s).flatMap fun b => quoteByte plus b.toNat
 /-- `urllib.parse.quote(s, safe='')` -/
-def quote (s : Str) : Str := (utf8Enc s).flatMap fun b => quoteByte false b.toNat
+def quote (s : Str) : Str := quoteWith false s
 /-- `urllib.parse.quote_plus(s)` -/
-def quotePlus (s : Str) : Str := (utf8Enc s).flatMap fun b => quoteByte true b.toNat
+def quotePlus (s : Str) : Str := quoteWith true s
 
 /-- `'&'.join(...)` -/
 def joinAmp : List Str → Str
   | [] => []
   | [a] => a
-  | a :: r => a ++ '&' :: joinAmp r
+  | a :: b :: r => a ++ '&' :: joinAmp (b :: r)
 
-/-- `urllib.parse.urlencode(pairs)` for text pairs -/
-def urlencode (ps : List (Str × Str)) : Str :=
-  joinAmp (ps.map fun (k, v) => quotePlus k ++ '=' :: quotePlus v)
+/-- `urllib.parse.urlencode(pairs, quote_via=…)` for text pairs: `quote_plus` (the default,
+`plus = true`) or `quote` -/
+def urlencodeWith (plus : Bool) (ps : List (Str × Str)) : Str :=
+  joinAmp (ps.map fun p => quoteWith plus p.1 ++ '=' :: quoteWith plus p.2)
+
+/-- `urllib.parse.urlencode(pairs)` -/
+def urlencode (ps : List (Str × Str)) : Str := urlencodeWith true ps
 
 /-! ### `parse_qsl`: the scanner -/
 
